@@ -30,7 +30,8 @@ pub fn run_and_compare(p: &Program) -> Verdict {
         sim::with_core(|c| c.probe(pr));
     }
     let expected_n = m.emits.len();
-    sim::with_core(|c| c.budget = 100_000);
+    const BUDGET: u64 = 400_000;
+    sim::with_core(|c| c.budget = BUDGET);
     let res = std::panic::catch_unwind(std::panic::AssertUnwindSafe(|| gen::run_real(p, None, Some(m.emits.clone()))));
     let budget_hit = sim::with_core(|c| c.budget_hit);
     match res {
@@ -43,7 +44,12 @@ pub fn run_and_compare(p: &Program) -> Verdict {
                 return Verdict::Fail { class, detail };
             }
             if budget_hit {
-                return Verdict::Fail { class: "no-termination".to_string(), detail: "the real run exhausted the step budget although the model terminated".to_string() };
+                // one model statement costs up to a few hundred decorated invocations (a library command looping over a
+                // 40-element array); only a run far beyond that is a failure to terminate, anything else is just long
+                if BUDGET > 600 * m.steps + 5_000 {
+                    return Verdict::Fail { class: "no-termination".to_string(), detail: format!("the real run exhausted {} steps although the model terminated after {} statements", BUDGET, m.steps) };
+                }
+                return Verdict::Inconclusive { reason: "step budget in a long run".to_string() };
             }
             match result {
                 Err(e) => Verdict::Fail { class: "run-failed".to_string(), detail: format!("the model completes, the real run failed: {}", e) },
